@@ -63,8 +63,25 @@ struct Q
 {
     int n, i1, i2, st;
     bool cst, use_end;
-    std::string str() const { return fmt("n=%d slice(%d,%s,%d)%s", n, i1, use_end ? "end" : fmt("%d", i2).c_str(), st, cst ? " const" : ""); }
+    bool dflt{false};   // call the 2-argument overload (step defaulted); st is 1 then
+    int ext{0};         // 1: also writes through a copy of the slice object and the non-const iterator
+    int selfarr{0};     // 1: also x.slice(..) = x (own base array as right-hand side); -1: that case is excluded (see quad_gen)
+    std::string str() const {
+        if (dflt) return fmt("n=%d slice(%d,%s)%s", n, i1, use_end ? "end" : fmt("%d", i2).c_str(), cst ? " const" : "");
+        return fmt("n=%d slice(%d,%s,%d)%s", n, i1, use_end ? "end" : fmt("%d", i2).c_str(), st, cst ? " const" : "");
+    }
 };
+
+// the slice expression the case denotes: one of the four overload spellings (const / mutable by A)
+template<class A>
+auto mk(A& x, const Q& q) {
+    if (q.dflt) {
+        if (q.use_end) return x.slice(q.i1, indexing::end);
+        return x.slice(q.i1, q.i2);
+    }
+    if (q.use_end) return x.slice(q.i1, indexing::end, q.st);
+    return x.slice(q.i1, q.i2, q.st);
+}
 
 // ---- reads through any slice type
 template<class T, class S>
@@ -124,30 +141,153 @@ void assign_list(S&& s, const std::vector<T>& v, int L) {
 
 // one write through x.slice(q) with right-hand side produced by rhs(slice); compares with the model
 template<class T, class F>
-void check_write(const Q& q, const Model& m, const char* kind, int L, const std::vector<T>& src, bool scalar, F&& rhs, Out& o) {
+void check_write(const Q& q, const Model& m, const char* kind, int L, const std::vector<T>& src, bool scalar, F&& rhs, Out& o, bool via_copy = false) {
     const int cnt = int(m.idx.size());
     base_array<T> x = sentinel<T>(q.n);
     const std::vector<T> before = vec_of(x);
     std::vector<T> want = before;
-    const std::string tag = std::string(kind);
+    const std::string tag = (via_copy ? "copy-" : "") + std::string(kind);   // via_copy: the write goes through a COPY of the slice object
     const bool match = scalar || (L == cnt);
     if (match) for (int k = 0; k < cnt; ++k) want[size_t(m.idx[size_t(k)])] = scalar ? src[0] : src[size_t(k)];
     bool threw = false;
     std::string what;
     try {
-        if (q.use_end) rhs(x.slice(q.i1, indexing::end, q.st));
-        else rhs(x.slice(q.i1, q.i2, q.st));
+        if (via_copy) {
+            slice_t<T> cp = [&]() { auto s = mk(x, q); return slice_t<T>(s); }();   // the original is gone when the copy is written through
+            rhs(cp);
+        } else rhs(mk(x, q));
     } catch (const std::exception& e) { threw = true; what = e.what(); }
     const std::vector<T> after = vec_of(x);
     const bool eq = after.size() == want.size() && std::equal(after.begin(), after.end(), want.begin(), same<T>);
     if (match) {
-        const bool empty_to_empty = (cnt == 0 && L == 0 && !scalar && tag == "array");   // empty array -> empty slice may be a no-op or may throw
-        if (threw && !empty_to_empty) o.fail("slice:write-throws:" + tag, fmt("%s = %s[%d]: threw '%s' although the counts match", q.str().c_str(), kind, L, what.c_str()));
-        else if (!eq) o.fail("slice:write-wrong:" + tag, fmt("%s = %s[%d]: array is %s, model %s", q.str().c_str(), kind, L, show(after).c_str(), show(want).c_str()));
+        const bool empty_to_empty = (cnt == 0 && L == 0 && !scalar && std::string(kind) == "array");   // empty array -> empty slice may be a no-op or may throw
+        if (threw && !empty_to_empty) o.fail("slice:write-throws:" + tag, fmt("%s = %s[%d]: threw '%s' although the counts match", q.str().c_str(), tag.c_str(), L, what.c_str()));
+        else if (!eq) o.fail("slice:write-wrong:" + tag, fmt("%s = %s[%d]: array is %s, model %s", q.str().c_str(), tag.c_str(), L, show(after).c_str(), show(want).c_str()));
     } else {
-        if (!threw) o.fail("slice:mismatch-accepted:" + tag, fmt("%s (count %d) = %s of %d elements did not throw; array is %s", q.str().c_str(), cnt, kind, L, show(after).c_str()));
-        if (!eq) o.fail("slice:mismatch-writes:" + tag, fmt("%s (count %d) = %s of %d elements modified the array: %s", q.str().c_str(), cnt, kind, L, show(after).c_str()));
+        if (!threw) o.fail("slice:mismatch-accepted:" + tag, fmt("%s (count %d) = %s of %d elements did not throw; array is %s", q.str().c_str(), cnt, tag.c_str(), L, show(after).c_str()));
+        if (!eq) o.fail("slice:mismatch-writes:" + tag, fmt("%s (count %d) = %s of %d elements modified the array: %s", q.str().c_str(), cnt, tag.c_str(), L, show(after).c_str()));
     }
+    o.evals++;
+}
+
+// ---- x.slice(..) = x : the right-hand side is the destination slice's own base array
+template<class T>
+void check_self_array(const Q& q, const Model& m, Out& o) {
+    const int cnt = int(m.idx.size());
+    base_array<T> x = sentinel<T>(q.n);
+    const std::vector<T> before = vec_of(x);
+    std::vector<T> want = before;
+    const bool match = (cnt == q.n);
+    if (match) for (int k = 0; k < cnt; ++k) want[size_t(m.idx[size_t(k)])] = before[size_t(k)];   // source copied first
+    bool threw = false;
+    std::string what;
+    try { mk(x, q) = x; } catch (const std::exception& e) { threw = true; what = e.what(); }
+    const std::vector<T> after = vec_of(x);
+    const bool eq = after.size() == want.size() && std::equal(after.begin(), after.end(), want.begin(), same<T>);
+    if (match) {
+        if (threw) o.fail("slice:self-array:equal-count-rejected", fmt("%s = x (the same array, %d elements, counts equal) threw '%s'; copy-first model: no exception, array %s", q.str().c_str(), q.n, what.c_str(), show(want).c_str()));
+        else if (!eq) o.fail("slice:self-array:write-wrong", fmt("%s = x (the same array): array is %s, copy-first model %s", q.str().c_str(), show(after).c_str(), show(want).c_str()));
+        o.label("self-array:equal-count");
+    } else {
+        if (!threw) o.fail("slice:self-array:mismatch-accepted", fmt("%s (count %d) = x (the same array, %d elements) did not throw; array is %s", q.str().c_str(), cnt, q.n, show(after).c_str()));
+        if (!eq) o.fail("slice:self-array:mismatch-writes", fmt("%s (count %d) = x (the same array, %d elements) modified the array: %s", q.str().c_str(), cnt, q.n, show(after).c_str()));
+        o.label("self-array:count-mismatch");
+    }
+    o.evals++;
+}
+
+// ---- the non-const SliceIterator<T> of a mutable slice object: ++, ++(int), --, --(int), ->, ==, != and writing through it
+template<class T>
+void check_iter_mut(const Q& q, const Model& m, Out& o) {
+    const int cnt = int(m.idx.size());
+    base_array<T> x = sentinel<T>(q.n);
+    const std::vector<T> before = vec_of(x);
+    std::vector<T> want;
+    for (int k : m.idx) want.push_back(before[size_t(k)]);
+    const std::vector<T> rwant(want.rbegin(), want.rend());
+    auto s = mk(x, q);   // slice_t<T>, a non-const object: begin()/end() are the non-const overloads
+    static_assert(std::is_same_v<decltype(s.begin()), SliceIterator<T>>, "non-const begin() expected");
+    static_assert(std::is_same_v<decltype(s.end()), SliceIterator<T>>, "non-const end() expected");
+    const T* base = x.data();
+    auto eqv = [](const std::vector<T>& a, const std::vector<T>& b) { return a.size() == b.size() && std::equal(a.begin(), a.end(), b.begin(), same<T>); };
+    const std::string d = q.str();
+    // every loop checks the ADDRESS the iterator designates before it reads or writes through it, so that a wrong iterator is
+    // reported here and never makes the harness itself touch memory outside the array
+    auto at = [&](const SliceIterator<T>& p, int k) { return k >= 0 && k < cnt && &*p == base + m.idx[size_t(k)]; };
+    {   // pre-increment, !=
+        std::vector<T> got;
+        int k = 0;
+        for (auto p = s.begin(); p != s.end(); ++p, ++k) {
+            if (!at(p, k)) { o.fail("slice:iter-mut:forward", fmt("%s: non-const iteration: position %d of %d is not the designated element (offset %td)", d.c_str(), k, cnt, &*p - base)); return; }
+            got.push_back(*p);
+        }
+        if (!eqv(got, want)) { o.fail("slice:iter-mut:forward", fmt("%s: non-const iteration gives %s, model %s", d.c_str(), show(got).c_str(), show(want).c_str())); return; }
+    }
+    {   // post-increment, ==
+        std::vector<T> got;
+        int k = 0;
+        auto p = s.begin();
+        const auto e = s.end();
+        while (!(p == e)) {
+            auto prev = p;
+            auto old = p++;
+            if (!(old == prev) || old != prev || p == prev) { o.fail("slice:iter-mut:post-increment", fmt("%s: p++ at position %d did not return the previous position / did not advance", d.c_str(), k)); return; }
+            if (!at(old, k) || (k + 1 < cnt ? !at(p, k + 1) : !(p == e))) { o.fail("slice:iter-mut:post-increment", fmt("%s: p++ at position %d of %d does not arrive at the next designated element", d.c_str(), k, cnt)); return; }
+            got.push_back(*old);
+            ++k;
+        }
+        if (!eqv(got, want)) { o.fail("slice:iter-mut:post-increment", fmt("%s: iteration with p++ / == gives %s, model %s", d.c_str(), show(got).c_str(), show(want).c_str())); return; }
+        if ((s.begin() == s.end()) != (cnt == 0) || (s.begin() != s.end()) != (cnt != 0)) {
+            o.fail("slice:iter-mut:equality", fmt("%s: begin()==end() is %d for %d elements", d.c_str(), int(s.begin() == s.end()), cnt));
+            return;
+        }
+    }
+    {   // pre-decrement from end(): the same elements backwards, arriving at begin()
+        std::vector<T> got;
+        auto p = s.end();
+        for (int k = cnt - 1; k >= 0; --k) {
+            --p;
+            if (!at(p, k)) { o.fail("slice:iter-mut:decrement", fmt("%s: --p from end(): not at designated element %d of %d (offset %td)", d.c_str(), k, cnt, &*p - base)); return; }
+            got.push_back(*p);
+        }
+        if (!eqv(got, rwant) || !(p == s.begin())) { o.fail("slice:iter-mut:decrement", fmt("%s: --p from end() gives %s, model %s / does not arrive at begin()", d.c_str(), show(got).c_str(), show(rwant).c_str())); return; }
+    }
+    {   // post-decrement
+        std::vector<T> got;
+        auto p = s.end();
+        for (int k = cnt - 1; k >= 0; --k) {
+            auto prev = p;
+            auto old = p--;
+            if (!(old == prev) || p == prev) { o.fail("slice:iter-mut:post-decrement", fmt("%s: p-- did not return the previous position / did not move", d.c_str())); return; }
+            if (!at(p, k)) { o.fail("slice:iter-mut:post-decrement", fmt("%s: p-- from end(): not at designated element %d of %d (offset %td)", d.c_str(), k, cnt, &*p - base)); return; }
+            got.push_back(*p);
+        }
+        if (!eqv(got, rwant) || !(p == s.begin())) { o.fail("slice:iter-mut:post-decrement", fmt("%s: p-- from end() gives %s, model %s / does not arrive at begin()", d.c_str(), show(got).c_str(), show(rwant).c_str())); return; }
+    }
+    {   // operator->
+        int k = 0;
+        for (auto p = s.begin(); p != s.end(); ++p, ++k) {
+            bool ok = (k < cnt && p.operator->() == base + m.idx[size_t(k)]);
+            if constexpr (std::is_same_v<T, cmplx_t>) { if (ok && (!same<real_t>(p->re, want[size_t(k)].re) || !same<real_t>(p->im, want[size_t(k)].im))) ok = false; }
+            if (!ok) { o.fail("slice:iter-mut:arrow", fmt("%s: operator-> of the non-const iterator does not give designated element %d", d.c_str(), k)); return; }
+        }
+    }
+    if (!equal_arr(x, before)) { o.fail("slice:iter-mut:read-modifies", fmt("%s: iterating changed the array", d.c_str())); return; }
+    {   // writing through *p and through ->  (the positions were verified above)
+        std::vector<T> wantarr = before;
+        for (int k = 0; k < cnt; ++k) wantarr[size_t(m.idx[size_t(k)])] = val<T>(5000 + k);
+        int k = 0;
+        for (auto p = s.begin(); p != s.end() && at(p, k); ++p, ++k) *p = val<T>(5000 + k);
+        if (!equal_arr(x, wantarr)) { o.fail("slice:iter-mut:write-wrong", fmt("%s: writing through the iterator gives %s, model %s", d.c_str(), show(vec_of(x)).c_str(), show(wantarr).c_str())); return; }
+        for (int j = 0; j < cnt; ++j) wantarr[size_t(m.idx[size_t(j)])] = val<T>(6000 + j);
+        k = 0;
+        for (auto p = s.begin(); p != s.end() && at(p, k); p++, ++k) {
+            if constexpr (std::is_same_v<T, cmplx_t>) { p->re = val<T>(6000 + k).re; p->im = val<T>(6000 + k).im; }
+            else *(p.operator->()) = val<T>(6000 + k);
+        }
+        if (!equal_arr(x, wantarr)) { o.fail("slice:iter-mut:write-wrong", fmt("%s: writing through operator-> gives %s, model %s", d.c_str(), show(vec_of(x)).c_str(), show(wantarr).c_str())); return; }
+    }
+    o.label("iter-mut");
     o.evals++;
 }
 
@@ -162,11 +302,11 @@ void quad_case(const Q& q, Out& o) {
     std::string what;
     try {
         if (q.cst) {
-            if (q.use_end) { auto s = cx.slice(q.i1, indexing::end, q.st); if (!m.throws) check_reads<T>(s, m, x, before, q, o); }
-            else { auto s = cx.slice(q.i1, q.i2, q.st); if (!m.throws) check_reads<T>(s, m, x, before, q, o); }
+            auto s = mk(cx, q);
+            if (!m.throws) check_reads<T>(s, m, x, before, q, o);
         } else {
-            if (q.use_end) { auto s = x.slice(q.i1, indexing::end, q.st); if (!m.throws) { check_reads<T>(s, m, x, before, q, o); const_slice_t<T> cs(s); check_reads<T>(cs, m, x, before, q, o); } }
-            else { auto s = x.slice(q.i1, q.i2, q.st); if (!m.throws) { check_reads<T>(s, m, x, before, q, o); const_slice_t<T> cs(s); check_reads<T>(cs, m, x, before, q, o); } }
+            auto s = mk(x, q);
+            if (!m.throws) { check_reads<T>(s, m, x, before, q, o); const_slice_t<T> cs(s); check_reads<T>(cs, m, x, before, q, o); }
         }
     } catch (const std::exception& e) { threw = true; what = e.what(); }
     if (threw != m.throws) {
@@ -175,10 +315,14 @@ void quad_case(const Q& q, Out& o) {
         return;
     }
     if (!equal_arr(x, before)) o.fail("slice:ctor-modifies", fmt("%s: constructing the slice changed the array", q.str().c_str()));
-    if (m.throws) { o.label("invalid"); return; }
+    if (m.throws) { o.label(q.dflt ? "default-step:invalid" : "invalid"); return; }
     const int cnt = int(m.idx.size());
     o.label(cnt == 0 ? "valid-empty" : cnt == 1 ? "valid-single" : "valid-multi");
-    if (cnt >= 2 || std::abs(q.st) >= 2 || q.i1 < 0 || q.i2 < 0) o.nontrivial(key_of(q.n, q.i1, q.use_end ? 99 : q.i2, q.st, int(q.cst), sizeof(T)));
+    if (q.dflt) o.label(cnt == 0 ? "default-step:valid-empty" : "default-step:valid");
+    if (cnt >= 2 || std::abs(q.st) >= 2 || q.i1 < 0 || q.i2 < 0) {
+        if (q.dflt) o.nontrivial(key_of(q.n, q.i1, q.use_end ? 99 : q.i2, q.st, int(q.cst), sizeof(T), 77));
+        else o.nontrivial(key_of(q.n, q.i1, q.use_end ? 99 : q.i2, q.st, int(q.cst), sizeof(T)));
+    }
     if (q.cst) return;
 
     // ---- writes
@@ -214,8 +358,21 @@ void quad_case(const Q& q, Out& o) {
             if (stop < 0 || stop > ny) continue;
             check_write<T>(q, m, "slice", L, sv, false, [&](auto&& s) { s = y.slice(a, stop, ss); }, o);
             check_write<T>(q, m, "const-slice", L, sv, false, [&](auto&& s) { s = cy.slice(a, stop, ss); }, o);
+            if (q.ext && ss == 2) check_write<T>(q, m, "slice", L, sv, false, [&](auto&& s) { s = y.slice(a, stop, ss); }, o, true);
+            if (q.ext && ss == -1) check_write<T>(q, m, "const-slice", L, sv, false, [&](auto&& s) { s = cy.slice(a, stop, ss); }, o, true);
+        }
+        if (q.ext) {   // the same kinds through a COPY of the slice object
+            check_write<T>(q, m, "array", L, src, false, [&](auto&& s) { s = rhs; }, o, true);
+            if (L <= 12) check_write<T>(q, m, "list", L, src, false, [&](auto&& s) { assign_list<T>(s, src, L); }, o, true);
         }
     }
+    if (q.ext) {
+        check_write<T>(q, m, "scalar", 1, src, true, [&](auto&& s) { s = src[0]; }, o, true);
+        o.label("copy-write");
+        check_iter_mut<T>(q, m, o);
+    }
+    if (q.selfarr == 1) check_self_array<T>(q, m, o);
+    else if (q.selfarr == -1) o.label("excluded:self-array-equal-count");
 }
 
 Q decode_q(const Json& c) {
@@ -223,6 +380,9 @@ Q decode_q(const Json& c) {
     q.n = c.geti("n"); q.i1 = c.geti("i1"); q.i2 = c.geti("i2", 0); q.st = c.geti("st");
     q.cst = c.geti("const", 0) != 0;
     q.use_end = c.geti("end", 0) != 0;
+    q.dflt = c.geti("dflt", 0) != 0 && q.st == 1;   // the 2-argument overloads exist for step 1 only
+    q.ext = c.geti("ext", 0);
+    q.selfarr = c.geti("selfarr", 0);
     return q;
 }
 
@@ -235,6 +395,7 @@ static void quad_check(const Json& c, Out& o) {
     o.evals = 0;
     if (c.geti("cx", 0)) quad_case<cmplx_t>(q, o);
     else quad_case<real_t>(q, o);
+    if (q.dflt && o.failed) o.sig += ":default-step";   // the same failure classes, reached through the 2-argument overloads
     o.evals = std::max<long>(o.evals, 1);
 }
 static void quad_gen(Ctx& ctx) {
@@ -242,26 +403,54 @@ static void quad_gen(Ctx& ctx) {
         for (int i1 = -n - 3; i1 <= n + 3; ++i1)
             for (int st = -5; st <= 5; ++st)
                 for (int cx = 0; cx < 2; ++cx)
-                    for (int cst = 0; cst < 2; ++cst) {
-                        for (int i2 = -n - 3; i2 <= n + 3; ++i2) {
+                    for (int cst = 0; cst < 2; ++cst)
+                        for (int dflt = 0; dflt <= (st == 1 ? 1 : 0); ++dflt) {   // step 1 also through the 2-argument overloads
+                            // x.slice(..) = x with equal counts (the slice denotes all n elements) is EXCLUDED: the library rejects it
+                            // ("Assigned array to same slice", sig slice:self-array:equal-count-rejected); counted as excluded:...
+                            auto selfarr = [&](int) { return 1; };   // equal counts included: the library accepts x.slice(0, n) = x since the fix recorded in known_findings.json
+                            for (int i2 = -n - 3; i2 <= n + 3; ++i2) {
+                                if (!ctx.mine()) continue;
+                                Json c = Json::object().set("n", n).set("i1", i1).set("i2", i2).set("st", st).set("cx", cx).set("const", cst);
+                                if (dflt) c.set("dflt", 1);
+                                if (!cst) c.set("ext", 1).set("selfarr", selfarr(i2));
+                                ctx.eval(c);
+                            }
                             if (!ctx.mine()) continue;
-                            ctx.eval(Json::object().set("n", n).set("i1", i1).set("i2", i2).set("st", st).set("cx", cx).set("const", cst));
+                            Json c = Json::object().set("n", n).set("i1", i1).set("st", st).set("cx", cx).set("const", cst).set("end", 1);
+                            if (dflt) c.set("dflt", 1);
+                            if (!cst) c.set("ext", 1).set("selfarr", selfarr(n));
+                            ctx.eval(c);
                         }
-                        if (!ctx.mine()) continue;
-                        ctx.eval(Json::object().set("n", n).set("i1", i1).set("st", st).set("cx", cx).set("const", cst).set("end", 1));
-                    }
 }
 
 // ------------------------------------------------------------------------------------------- aliasing pairs on one array
 namespace {
 template<class T>
-void alias_case(int n, const std::vector<int>& d, const std::vector<int>& s, bool src_const, Out& o) {
+void alias_case(int n, const std::vector<int>& d, const std::vector<int>& s, bool src_const, bool mismatch, Out& o) {
     const Model md = pyslice(n, d[0], d[1], d[2]), ms = pyslice(n, s[0], s[1], s[2]);
-    if (md.throws || ms.throws || md.idx.size() != ms.idx.size()) { o.discard = true; return; }
+    if (md.throws || ms.throws || ((md.idx.size() != ms.idx.size()) != mismatch)) { o.discard = true; return; }
     base_array<T> x = sentinel<T>(n);
     const base_array<T>& cx = x;
     const std::vector<T> before = vec_of(x);
     std::vector<T> want = before;
+    if (mismatch) {   // different counts on ONE array: must throw and leave the array bit-identical
+        bool threw = false;
+        try {
+            if (src_const) x.slice(d[0], d[1], d[2]) = cx.slice(s[0], s[1], s[2]);
+            else x.slice(d[0], d[1], d[2]) = x.slice(s[0], s[1], s[2]);
+        } catch (const std::exception&) { threw = true; }
+        const std::vector<T> after = vec_of(x);
+        const std::string desc = fmt("n=%d x.slice(%d,%d,%d) [%zu elements] = %sx.slice(%d,%d,%d) [%zu elements]", n, d[0], d[1], d[2], md.idx.size(), src_const ? "const " : "", s[0], s[1], s[2], ms.idx.size());
+        if (!threw) o.fail("alias:mismatch-accepted", desc + " did not throw; array is " + show(after));
+        if (!std::equal(after.begin(), after.end(), want.begin(), same<T>)) o.fail("alias:mismatch-writes", desc + " modified the array: " + show(after) + ", was " + show(before));
+        bool ov = false;
+        for (int a : md.idx) for (int b : ms.idx) ov |= (a == b);
+        o.label(md.idx.size() < ms.idx.size() ? "count-mismatch:source-longer" : "count-mismatch:source-shorter");
+        o.label(ov ? "count-mismatch:overlapping" : "count-mismatch:disjoint");
+        if (md.idx.empty() || ms.idx.empty()) o.label("count-mismatch:one-side-empty");
+        o.nontrivial(key_of(n, d[0], d[1], d[2], s[0], s[1], s[2], int(src_const), sizeof(T), 1));
+        return;
+    }
     for (size_t k = 0; k < md.idx.size(); ++k) want[size_t(md.idx[k])] = before[size_t(ms.idx[k])];   // source copied first
     bool threw = false;
     std::string what;
@@ -285,14 +474,16 @@ void alias_case(int n, const std::vector<int>& d, const std::vector<int>& s, boo
 VK_SUB(alias, "alias_pairs");
 static void alias_check(const Json& c, Out& o) {
     auto d = c.ints("d"), s = c.ints("s");
-    if (c.geti("cx", 0)) alias_case<cmplx_t>(c.geti("n"), d, s, c.geti("sc", 0) != 0, o);
-    else alias_case<real_t>(c.geti("n"), d, s, c.geti("sc", 0) != 0, o);
+    const bool mm = c.geti("mm", 0) != 0;   // 1: a pair of DIFFERENT counts (must be rejected); absent/0: equal counts (unequal ones are discarded)
+    if (c.geti("cx", 0)) alias_case<cmplx_t>(c.geti("n"), d, s, c.geti("sc", 0) != 0, mm, o);
+    else alias_case<real_t>(c.geti("n"), d, s, c.geti("sc", 0) != 0, mm, o);
 }
 static void alias_gen(Ctx& ctx) {
     const int nmax = 8;
     Rng r(mix(ctx.seed, 0xA11A5));
+    Rng r2(mix(ctx.seed, 0xA11A6));   // sampling of the count-mismatch pairs (own stream: the equal-count selection stays as it was)
     for (int n = 1; n <= nmax; ++n) {
-        std::vector<std::vector<int>> tri;
+        std::vector<std::vector<int>> tri, tri0;
         for (int i1 = -n; i1 <= n - 1; ++i1)
             for (int i2 = -n; i2 <= n; ++i2)
                 for (int st = -4; st <= 4; ++st) {
@@ -301,6 +492,7 @@ static void alias_gen(Ctx& ctx) {
                     if ((i1 < 0 || i2 < 0) && ((i1 + 2 * i2 + st + 100) % 3 != 0)) continue;
                     Model m = pyslice(n, i1, i2, st);
                     if (!m.throws && !m.idx.empty()) tri.push_back({i1, i2, st, int(m.idx.size())});
+                    if (!m.throws) tri0.push_back({i1, i2, st, int(m.idx.size())});   // the empty ones too
                 }
         // quick: all pairs for n <= 6, a seed-chosen quarter for n = 7, 8; thorough: all
         for (auto& d : tri)
@@ -312,56 +504,78 @@ static void alias_gen(Ctx& ctx) {
                     ctx.eval(Json::object().set("n", n).set("d", std::vector<int>{d[0], d[1], d[2]}).set("s", std::vector<int>{s[0], s[1], s[2]}).set("cx", v & 1).set("sc", v >> 1));
                 }
             }
+        // pairs of DIFFERENT counts on the one array (empty slices included): all for n <= MM_ALL, a seed-chosen 1/MM_DIV beyond;
+        // one seed-chosen (element type, source constness) variant per pair
+        const int mm_all = ctx.by_tier(4, 6);
+        const uint64_t mm_div = uint64_t(ctx.by_tier(16, 6));
+        for (auto& d : tri0)
+            for (auto& s : tri0) {
+                if (d[3] == s[3]) continue;
+                const uint64_t h = r2.next();
+                if (n > mm_all && (h >> 8) % mm_div != 0) continue;
+                if (!ctx.mine()) continue;
+                const int v = int(h & 3);
+                ctx.eval(Json::object().set("n", n).set("d", std::vector<int>{d[0], d[1], d[2]}).set("s", std::vector<int>{s[0], s[1], s[2]}).set("cx", v & 1).set("sc", v >> 1).set("mm", 1));
+            }
     }
 }
 
 // ------------------------------------------------------------------------------------------- random large arrays
 VK_SUB(big, "random_large");
-static void big_check(const Json& c, Out& o) {
+namespace {
+template<class T> double re_of(const T& v) { if constexpr (std::is_same_v<T, cmplx_t>) return v.re; else return v; }
+template<class T>
+void big_case(const Json& c, Out& o) {
     const int n = c.geti("n"), i1 = c.geti("i1"), i2 = c.geti("i2"), st = c.geti("st");
+    Q q{n, i1, i2, st, false, false};
+    q.dflt = c.geti("dflt", 0) != 0 && st == 1;   // 2-argument overload
     const Model m = pyslice(n, i1, i2, st);
-    arr_real x(n);
-    for (int i = 0; i < n; ++i) x[i] = 1000 + i;
-    const arr_real& cx = x;
+    const std::string d = q.str();
+    base_array<T> x(n);
+    for (int i = 0; i < n; ++i) x[i] = val<T>(1000 + i);
+    const base_array<T>& cx = x;
     bool threw = false;
-    arr_real got;
-    try { got = arr_real(cx.slice(i1, i2, st)); } catch (const std::exception&) { threw = true; }
-    if (threw != m.throws) { o.fail(m.throws ? "slice:invalid-accepted" : "slice:valid-rejected", fmt("n=%d slice(%d,%d,%d): threw=%d model throws=%d", n, i1, i2, st, int(threw), int(m.throws))); return; }
+    base_array<T> got;
+    try { got = base_array<T>(mk(cx, q)); } catch (const std::exception&) { threw = true; }
+    if (threw != m.throws) { o.fail(m.throws ? "slice:invalid-accepted" : "slice:valid-rejected", fmt("%s: threw=%d model throws=%d", d.c_str(), int(threw), int(m.throws))); return; }
+    o.label(std::is_same_v<T, cmplx_t> ? "type:complex" : "type:real");
+    if (q.dflt) o.label("default-step");
     if (m.throws) { o.label("invalid"); return; }
     const int cnt = int(m.idx.size());
-    if (got.size() != cnt) { o.fail("slice:size", fmt("n=%d slice(%d,%d,%d): %d elements, model %d", n, i1, i2, st, got.size(), cnt)); return; }
-    for (int k = 0; k < cnt; ++k) if (got[k] != 1000 + m.idx[size_t(k)]) { o.fail("slice:read-materialise", fmt("n=%d slice(%d,%d,%d): element %d is %g, model %d", n, i1, i2, st, k, got[k], 1000 + m.idx[size_t(k)])); return; }
+    if (got.size() != cnt) { o.fail("slice:size", fmt("%s: %d elements, model %d", d.c_str(), got.size(), cnt)); return; }
+    for (int k = 0; k < cnt; ++k) if (!same(got[k], val<T>(1000 + m.idx[size_t(k)]))) { o.fail("slice:read-materialise", fmt("%s: element %d is %g, model %d", d.c_str(), k, re_of(got[k]), 1000 + m.idx[size_t(k)])); return; }
     // iteration
     {
-        auto s = cx.slice(i1, i2, st);
+        auto s = mk(cx, q);
         int k = 0;
-        for (auto p = s.begin(); p != s.end() && k <= cnt; ++p, ++k) if (*p != 1000 + m.idx[size_t(std::min(k, cnt - 1))]) { o.fail("slice:read-iterate", fmt("n=%d slice(%d,%d,%d): iteration element %d wrong", n, i1, i2, st, k)); return; }
-        if (k != cnt) { o.fail("slice:read-iterate", fmt("n=%d slice(%d,%d,%d): iteration visited %d elements, model %d", n, i1, i2, st, k, cnt)); return; }
+        for (auto p = s.begin(); p != s.end() && k <= cnt; ++p, ++k) if (!same(*p, val<T>(1000 + m.idx[size_t(std::min(k, cnt - 1))]))) { o.fail("slice:read-iterate", fmt("%s: iteration element %d wrong", d.c_str(), k)); return; }
+        if (k != cnt) { o.fail("slice:read-iterate", fmt("%s: iteration visited %d elements, model %d", d.c_str(), k, cnt)); return; }
     }
     // scalar write and array write: exactly the designated positions
+    const T sc = ((n + cnt) & 1) ? val<T>(-7) : T(0);
+    std::vector<char> hit(size_t(n), 0);
+    for (int k : m.idx) hit[size_t(k)] = 1;
     for (int mode = 0; mode < 3; ++mode) {
-        arr_real y(x);
-        std::vector<char> hit(size_t(n), 0);
-        for (int k : m.idx) hit[size_t(k)] = 1;
+        base_array<T> y(x);
         bool wthrew = false;
         try {
-            if (mode == 0) y.slice(i1, i2, st) = ((n + cnt) & 1) ? -7.0 : 0.0;
-            else if (mode == 1) { arr_real rhs(cnt); for (int k = 0; k < cnt; ++k) rhs[k] = -1 - k; if (cnt > 0) y.slice(i1, i2, st) = rhs; }
-            else { arr_real rhs(cnt + 1); y.slice(i1, i2, st) = rhs; }
+            if (mode == 0) mk(y, q) = sc;
+            else if (mode == 1) { base_array<T> rhs(cnt); for (int k = 0; k < cnt; ++k) rhs[k] = val<T>(-1 - k); if (cnt > 0) mk(y, q) = rhs; }
+            else { base_array<T> rhs(cnt + 1); mk(y, q) = rhs; }
         } catch (const std::exception&) { wthrew = true; }
         if (mode == 2) {
-            if (!wthrew) { o.fail("slice:mismatch-accepted:array", fmt("n=%d slice(%d,%d,%d) count %d accepted an array of %d", n, i1, i2, st, cnt, cnt + 1)); return; }
-            for (int i = 0; i < n; ++i) if (y[i] != x[i]) { o.fail("slice:mismatch-writes:array", fmt("n=%d slice(%d,%d,%d): rejected assignment changed element %d", n, i1, i2, st, i)); return; }
+            if (!wthrew) { o.fail("slice:mismatch-accepted:array", fmt("%s count %d accepted an array of %d", d.c_str(), cnt, cnt + 1)); return; }
+            for (int i = 0; i < n; ++i) if (!same(y[i], x[i])) { o.fail("slice:mismatch-writes:array", fmt("%s: rejected assignment changed element %d", d.c_str(), i)); return; }
             continue;
         }
-        if (wthrew) { o.fail("slice:write-throws:array", fmt("n=%d slice(%d,%d,%d) mode %d threw", n, i1, i2, st, mode)); return; }
+        if (wthrew) { o.fail("slice:write-throws:array", fmt("%s mode %d threw", d.c_str(), mode)); return; }
         int pos = 0;
         for (int i = 0; i < n; ++i) {
-            if (!hit[size_t(i)] && y[i] != x[i]) { o.fail("slice:write-outside", fmt("n=%d slice(%d,%d,%d) mode %d: element %d outside the slice was modified", n, i1, i2, st, mode, i)); return; }
+            if (!hit[size_t(i)] && !same(y[i], x[i])) { o.fail("slice:write-outside", fmt("%s mode %d: element %d outside the slice was modified", d.c_str(), mode, i)); return; }
         }
         for (int k : m.idx) {
-            double w = mode == 0 ? (((n + cnt) & 1) ? -7.0 : 0.0) : double(-1 - pos);
-            if (y[k] != w) { o.fail("slice:write-wrong:array", fmt("n=%d slice(%d,%d,%d) mode %d: element %d is %g, model %g", n, i1, i2, st, mode, k, y[k], w)); return; }
+            const T w = mode == 0 ? sc : val<T>(-1 - pos);
+            if (!same(y[k], w)) { o.fail("slice:write-wrong:array", fmt("%s mode %d: element %d is %g, model %g", d.c_str(), mode, k, re_of(y[k]), re_of(w))); return; }
             ++pos;
         }
     }
@@ -372,17 +586,28 @@ static void big_check(const Json& c, Out& o) {
         const int s1 = r1 + sh, s2 = r2 + sh;
         const Model ms = pyslice(n, s1, s2, st);
         if (!ms.throws && int(ms.idx.size()) == cnt && s1 >= 0 && s2 >= 0) {
-            arr_real y(x);
-            y.slice(i1, i2, st) = y.slice(s1, s2, st);
-            std::vector<double> want(x.begin(), x.end());
+            base_array<T> y(x);
+            Q qs{n, s1, s2, st, false, false};
+            qs.dflt = q.dflt;
+            mk(y, q) = mk(y, qs);
+            std::vector<T> want(x.begin(), x.end());
             for (int k = 0; k < cnt; ++k) want[size_t(m.idx[size_t(k)])] = x[ms.idx[size_t(k)]];
-            for (int i = 0; i < n; ++i) if (y[i] != want[size_t(i)]) { o.fail(std::abs(st) == 1 ? "alias:unit-stride-overlap" : "alias:strided-overlap", fmt("n=%d x.slice(%d,%d,%d) = x.slice(%d,%d,%d): element %d is %g, copy-first model %g", n, i1, i2, st, s1, s2, st, i, y[i], want[size_t(i)])); return; }
+            for (int i = 0; i < n; ++i) if (!same(y[i], want[size_t(i)])) { o.fail(std::abs(st) == 1 ? "alias:unit-stride-overlap" : "alias:strided-overlap", fmt("n=%d x.slice(%d,%d,%d) = x.slice(%d,%d,%d): element %d is %g, copy-first model %g", n, i1, i2, st, s1, s2, st, i, re_of(y[i]), re_of(want[size_t(i)]))); return; }
             o.label("shifted-self-copy");
         }
     }
-    const int d = std::abs((i2 < 0 ? i2 + n : i2) - (i1 < 0 ? i1 + n : i1)), am = std::abs(st);
-    o.label(d % am == 0 ? "rem=0" : d % am == 1 ? "rem=1" : d % am == am - 1 ? "rem=|step|-1" : "rem=other");
-    if (cnt >= 2 || am >= 2) o.nontrivial(key_of(n, i1, i2, st));
+    const int dd = std::abs((i2 < 0 ? i2 + n : i2) - (i1 < 0 ? i1 + n : i1)), am = std::abs(st);
+    o.label(dd % am == 0 ? "rem=0" : dd % am == 1 ? "rem=1" : dd % am == am - 1 ? "rem=|step|-1" : "rem=other");
+    if (cnt >= 2 || am >= 2) {
+        if (std::is_same_v<T, cmplx_t> || q.dflt) o.nontrivial(key_of(n, i1, i2, st, sizeof(T), int(q.dflt)));
+        else o.nontrivial(key_of(n, i1, i2, st));
+    }
+}
+}   // namespace
+static void big_check(const Json& c, Out& o) {
+    if (c.geti("cx", 0)) { big_case<cmplx_t>(c, o); if (o.failed) o.sig += ":complex"; }   // "cx" absent: the real element type, as before
+    else big_case<real_t>(c, o);
+    if (c.geti("dflt", 0) && c.geti("st") == 1 && o.failed) o.sig += ":default-step";
 }
 #if defined(__has_feature)
 #if __has_feature(address_sanitizer)
@@ -400,6 +625,9 @@ static void big_gen(Ctx& ctx) {
         int st = pick(1, 9) * (flip() ? 1 : -1);
         if (pick(0, 9) == 0) st = pick(-n - 1, n + 1);
         if (st == 0 && pick(0, 3) != 0) st = 1;
+        const int dflt = pick(0, 9) == 9;   // step 1 through the 2-argument overload (shrinks towards the explicit step)
+        if (dflt) st = 1;
+        const int cx = pick(0, 1);          // element type
         int a = pick(-n - 1, n), b;
         // bias |i2-i1| mod |step| to 0, 1, |step|-1
         int len = pick_log(0, n);
@@ -407,7 +635,7 @@ static void big_gen(Ctx& ctx) {
         int k = std::abs(st) == 0 ? len : (len / std::abs(st)) * std::abs(st) + rem;
         b = st >= 0 ? a + k : a - k;
         if (pick(0, 7) == 0) b = pick(-n - 1, n + 1);
-        return Json::object().set("n", n).set("i1", a).set("i2", b).set("st", st).set("shift", pick(-3, 3));
+        return Json::object().set("n", n).set("i1", a).set("i2", b).set("st", st).set("shift", pick(-3, 3)).set("cx", cx).set("dflt", dflt);
     });
 }
 
